@@ -204,7 +204,7 @@ pub fn dump_segment(sr: &SegmentReader, f: &Fields, schema: &Schema) -> tantivy:
     }
     // postings
     let mut terms: Vec<BTreeMap<String, String>> = vec![BTreeMap::new(); max_doc as usize];
-    let mut indexed = vec![("uid", f.uid), ("key", f.key), ("tag", f.tag), ("body", f.body), ("js", f.js)];
+    let mut indexed = vec![("uid", f.uid), ("key", f.key), ("tag", f.tag), ("body", f.body), ("tw", f.tw), ("js", f.js)];
     if f.sort_ty == SortTy::Str {
         indexed.push(("sortv", f.sortv));
     }
